@@ -925,6 +925,10 @@ pub fn replay(v: &serde_json::Value) -> Vec<Violation> {
         let tsi = v["case"]["tsi"].as_u64().unwrap();
         return check_close_session(cci, tsi).into_iter().map(|(key, what)| Violation { key, what, case: v.clone() }).collect();
     }
+    if v["check"] == "stream" {
+        let c: StreamCase = serde_json::from_value(v["case"].clone()).expect("case");
+        return check_stream(&c).into_iter().map(|(key, what)| Violation { key, what, case: v.clone() }).collect();
+    }
     let r: Vec<(String, String)> = if v["check"] == "encode" {
         check_encode(&serde_json::from_value(v["case"].clone()).expect("case"))
     } else {
@@ -960,6 +964,180 @@ pub fn check_close_session(cci: u128, tsi: u64) -> Option<(String, String)> {
     }
 }
 
+
+// ------------------------------------------------------------------------------------------------
+// Sender streams: every packet a real Sender emits for a short session (three publications, one
+// object each) is decoded by the independent codec and by flute's own parser and compared with the
+// session's configuration. Reaches fields that only the Sender fills in (FDT instance id across the
+// 20-bit wrap and its version nibble, TSI/TOI of the session, SCT of the FDT).
+
+#[derive(Serialize, Deserialize, Clone, Debug)]
+pub struct StreamCase {
+    pub scheme: crate::sess::Scheme,
+    pub toi_bits: u8,
+    pub tsi: u64,
+    pub rfc3926: bool,
+    pub start_id: u32,
+    pub sct: bool,
+    pub fdt_cenc: u8,
+    pub full_fdt: bool,
+}
+
+pub fn check_stream(c: &StreamCase) -> Option<(String, String)> {
+    use crate::sess::*;
+    let r = catch(|| -> Option<(String, String)> {
+        let (e, b, parity) = match c.scheme {
+            Scheme::NoCode => (8u16, 3u16, 0u16),
+            Scheme::Raptor => (4, 4, 1),
+            _ => (8, 3, 1),
+        };
+        let mut s = SessSpec::basic(OtiSpec::new(Scheme::NoCode, 64, 8, 0, true));
+        s.toi_bits = c.toi_bits;
+        s.toi_init = Some(((1u128 << c.toi_bits.min(112)) - 2).to_string());
+        s.tsi = c.tsi;
+        s.rfc3926 = c.rfc3926;
+        s.fdt_start_id = c.start_id;
+        s.sct = c.sct;
+        s.fdt_cenc = c.fdt_cenc;
+        s.full_fdt = c.full_fdt;
+        let mut sender = match s.sender() {
+            Ok(x) => x,
+            Err(e) => return Some(("C06/stream/harness".into(), e)),
+        };
+        let mut pkts: Vec<(SystemTime, Vec<u8>, usize)> = Vec::new();
+        let mut tois: Vec<u128> = Vec::new();
+        for k in 0..3usize {
+            let now = time_rel(1500 * k as i64 + 123);
+            let mut o = ObjSpec::simple(30 + k, 60 + k as u8);
+            o.oti = Some(OtiSpec::new(c.scheme, e, b, parity, true));
+            let desc = match o.desc(None) {
+                Ok(d) => d,
+                Err(e) => return Some(("C06/stream/harness".into(), e)),
+            };
+            match sender.add_object(0, desc) {
+                Ok(t) => tois.push(t),
+                Err(e) => return Some(("C06/stream/harness".into(), format!("add_object: {:?}", e.0.to_string()))),
+            }
+            if sender.publish(now).is_err() {
+                return Some(("C06/stream/harness".into(), "publish failed".into()));
+            }
+            let mut out = Vec::new();
+            drain(&mut sender, now, &mut out, 500);
+            for (t, p) in out {
+                pkts.push((t, p, k));
+            }
+        }
+        let exp_v: u8 = if c.rfc3926 { 1 } else { 2 };
+        let mut ids_seen: Vec<u32> = Vec::new();
+        let mask = (1u128 << c.toi_bits.min(112)) - 1;
+        for (i, (t, bytes, _k)) in pkts.iter().enumerate() {
+            let r = match rfc::decode(bytes) {
+                Ok(r) => r,
+                Err(e) => return Some(("C06/stream/undecodable".into(), format!("packet #{} of the sender is rejected by the independent decoder: {} ({})", i, e, hex(&bytes[..bytes.len().min(48)])))),
+            };
+            let back = flute::core::alc::parse_alc_pkt(bytes).map(|p| (p.lct.tsi, p.lct.toi, p.lct.cp, p.lct.close_object, p.lct.close_session, p.fdt_info.as_ref().map(|f| (f.version, f.fdt_instance_id)), p.cenc.map(|x| x as u8), p.transfer_length)).map_err(|e| e.0.to_string());
+            let back = match back {
+                Ok(x) => x,
+                Err(e) => return Some(("C06/stream/roundtrip-rejected".into(), format!("flute rejects packet #{} of its own sender: {}", i, e))),
+            };
+            let mine = (r.tsi, r.toi, r.cp, r.b, r.a, r.fdt().map(|(v, id)| (v as u32, id)), r.cenc(), r.fti(false).and_then(|f| f.ok()).map(|f| f.l));
+            if back.0 != mine.0 || back.1 != mine.1 || back.2 != mine.2 || back.3 != mine.3 || back.4 != mine.4 || back.5 != mine.5 || back.6 != mine.6 || (mine.7.is_some() && back.7 != mine.7) {
+                return Some(("C06/stream/decoders-disagree".into(), format!("packet #{}: flute parses (tsi, toi, cp, B, A, fdt, cenc, transfer length) = {:?}, the independent decoder {:?}", i, back, mine)));
+            }
+            if r.version != 1 || r.tsi != c.tsi || r.a {
+                return Some(("C06/stream/lct-fields".into(), format!("packet #{}: LCT version {} tsi {} A {} in a session with tsi {}", i, r.version, r.tsi, r.a, c.tsi)));
+            }
+            if r.toi == 0 {
+                let (v, id) = match r.fdt() {
+                    Some(x) => x,
+                    None => return Some(("C06/stream/fdt-without-ext-fdt".into(), format!("packet #{} has TOI 0 but no EXT_FDT", i))),
+                };
+                if v != exp_v {
+                    return Some(("C06/stream/fdt-version".into(), format!("packet #{}: EXT_FDT version {} (instance id {}), the profile prescribes {}", i, v, id, exp_v)));
+                }
+                if ids_seen.last() != Some(&id) {
+                    ids_seen.push(id);
+                }
+                if c.sct {
+                    let us = t.duration_since(UNIX_EPOCH).unwrap().as_micros() as i128;
+                    let got = r.sct().map(|(sec, frac)| (sec as i128 - 2_208_988_800i128).rem_euclid(1i128 << 32) * 1_000_000 + frac.map(|f| ((f as u128 * 1_000_000) >> 32) as i128).unwrap_or(0));
+                    let want_mod = us.rem_euclid((1i128 << 32) * 1_000_000);
+                    match got {
+                        None => return Some(("C06/stream/fdt-sct-missing".into(), format!("FDT packet #{} carries no sender current time although fdt_inband_sct is set", i))),
+                        Some(g) => {
+                            let frac_known = r.sct().map(|x| x.1.is_some()).unwrap_or(false);
+                            let tol = if frac_known { 1 } else { 1_000_000 };
+                            if (g - want_mod).abs() > tol {
+                                return Some(("C06/stream/fdt-sct".into(), format!("FDT packet #{}: sender current time {} us, sent at {} us", i, g, want_mod)));
+                            }
+                        }
+                    }
+                }
+                if (c.fdt_cenc != 0 && r.cenc().is_none()) || r.cenc().map(|x| x != c.fdt_cenc).unwrap_or(false) {
+                    return Some(("C06/stream/fdt-cenc".into(), format!("FDT packet #{}: EXT_CENC {:?}, configured FDT encoding {}", i, r.cenc(), c.fdt_cenc)));
+                }
+            } else {
+                if r.fdt().is_some() {
+                    return Some(("C06/stream/object-with-ext-fdt".into(), format!("packet #{} of TOI {} carries EXT_FDT", i, r.toi)));
+                }
+                if !tois.contains(&r.toi) || r.toi > mask {
+                    return Some(("C06/stream/toi".into(), format!("packet #{} has TOI {} (allocated: {:?}, width {} bits)", i, r.toi, tois, c.toi_bits)));
+                }
+                if r.cp != c.scheme.cp() {
+                    return Some(("C06/stream/codepoint".into(), format!("packet #{} of TOI {}: codepoint {} for scheme {:?}", i, r.toi, r.cp, c.scheme)));
+                }
+                let k = tois.iter().position(|t| *t == r.toi).unwrap();
+                if let Some(f) = r.fti(false) {
+                    match f {
+                        Ok(f) => {
+                            if f.l != 30 + k as u64 || f.e != e {
+                                return Some(("C06/stream/object-fti".into(), format!("packet #{} of TOI {}: EXT_FTI says length {} E {}, object has {} / {}", i, r.toi, f.l, f.e, 30 + k, e)));
+                            }
+                        }
+                        Err(e) => return Some(("C06/stream/object-fti".into(), format!("packet #{}: EXT_FTI undecodable: {}", i, e))),
+                    }
+                }
+            }
+        }
+        let want: Vec<u32> = (0..3u32).map(|k| (c.start_id + k) & 0xFFFFF).collect();
+        // ObjectsBeingTransferred publishes once more per started transfer: only the start is pinned then
+        let ok = if c.full_fdt { ids_seen == want } else { ids_seen.first() == want.first() && ids_seen.windows(2).all(|w| w[1] == (w[0] + 1) & 0xFFFFF) };
+        if !ok {
+            return Some(("C06/stream/fdt-instance-ids".into(), format!("FDT instance ids on the wire {:?}, publications from fdt_start_id {} should give {:?}", ids_seen, c.start_id, want)));
+        }
+        None
+    });
+    match r {
+        Ok(v) => v,
+        Err(p) => Some((format!("C06/stream/panic/{}", panic_sig(&p)), format!("panic: {}", p))),
+    }
+}
+
+pub fn stream_grid(thorough: bool) -> Vec<StreamCase> {
+    let mut v = Vec::new();
+    for scheme in crate::sess::ALL_SCHEMES {
+        for toi_bits in [16u8, 32, 48, 64, 80, 112] {
+            for tsi in [1u64, 0xFFFF, 0x1_0000, 0xFFFF_FFFF, 0x1_0000_0000, (1 << 48) - 1] {
+                for rfc3926 in [false, true] {
+                    for start_id in [0u32, 1, 0xFFFFD, 0xFFFFE, 0xFFFFF] {
+                        for sct in [true, false] {
+                            for fdt_cenc in [0u8, 1, 2, 3] {
+                                for full_fdt in [true, false] {
+                                    if !thorough && (toi_bits as u64 / 16 + tsi % 7 + start_id as u64 + fdt_cenc as u64 + sct as u64 + full_fdt as u64 + scheme as u64) % 4 != 0 {
+                                        continue;
+                                    }
+                                    v.push(StreamCase { scheme, toi_bits, tsi, rfc3926, start_id, sct, fdt_cenc, full_fdt });
+                                }
+                            }
+                        }
+                    }
+                }
+            }
+        }
+    }
+    v
+}
+
 pub fn run(thorough: bool) -> i32 {
     let mut rep = Report::new("C06", "exploration", if thorough { "thorough" } else { "quick" });
     for cb in [0u32, 4, 8, 12, 16] {
@@ -993,8 +1171,21 @@ pub fn run(thorough: bool) -> i32 {
             rep.add(Violation { key: k, what: w, case: json!({"check": "decode", "case": serde_json::to_value(c).unwrap()}) });
         }
     }
-    rep.cov("evaluations", (enc.len() + dec.len()) as u64);
-    rep.cov("distinct_nontrivial", (enc.len() + dec.len()) as u64);
+    let streams = stream_grid(thorough);
+    let sres = par_map(&streams, |_, c| check_stream(c));
+    let mut wraps = 0u64;
+    for (c, r) in streams.iter().zip(sres) {
+        if c.start_id >= 0xFFFFE {
+            wraps += 1;
+        }
+        if let Some((k, w)) = r {
+            rep.add(Violation { key: k, what: w, case: json!({"check": "stream", "case": serde_json::to_value(c).unwrap()}) });
+        }
+    }
+    rep.cov("sender_stream_sessions", streams.len() as u64);
+    rep.guard("sender_streams_crossing_the_20_bit_instance_id_wrap", wraps);
+    rep.cov("evaluations", (enc.len() + dec.len() + streams.len()) as u64);
+    rep.cov("distinct_nontrivial", (enc.len() + dec.len() + streams.len()) as u64);
     rep.cov("rule", "encode direction: flute::new_alc_pkt on the full product of CCI/TSI/TOI width classes (min, max, pattern value per class) x close flag x 6 codepoints x 8 extension sets, plus per-scheme EXT_FTI boundary values, payload-id ranges and SCT/FDT-id/version/CENC values, every field decoded by the independent RFC codec and by flute itself; decode direction: packets from the independent RFC encoder over every (C,S,O,H) combination, flags, extension orders with unknown variable (HEL 1..200) and fixed extensions inserted at every position, FTI/payload-id/SCT boundary values, parsed by flute. Every grid point is a distinct packet; all are non-trivial (each exercises at least one field comparison).");
     rep.cov("exhaustive", true);
     rep.cov("encode_cases", enc.len() as u64);
